@@ -64,3 +64,64 @@ Proof.
   - cbn [v_hasher]. rewrite Hh. reflexivity.
   - unfold entry_val_mt. rewrite Heh, Hh. cbn [hasher_or]. exact Hvh.
 Qed.
+
+(* ------------------------------------------------------------------ *)
+(* the Value handed out by Proof is hashed with the MERKLIZER's hasher  *)
+(* ------------------------------------------------------------------ *)
+(* for EVERY merklizer value, default hasher and path (whatever hasher the path carries:
+   mz.Options() paths, package-level NewPath / NewPathFromContext paths pinned to the package
+   default, a zero Path) *)
+Theorem proof_value_hasher T Hd m p pr v :
+  mz_proof T Hd m p = Ok (pr, Some v) ->
+  v_hasher v = Some (mz_hasher m) /\
+  value_mt_entry v = mk_value_entry (mz_hasher m) (v_val v) /\
+  exists k e, path_mt_entry Hd p = Ok k /\ assoc Z.eqb k (mz_entries m) = Some e /\ v_val v = re_val e.
+Proof.
+  unfold mz_proof. intros H.
+  destruct (path_mt_entry Hd p) as [k| | |] eqn:Hk; cbn [bind] in H; try discriminate.
+  destruct (t_gen T (mz_tree m) k) as [pv| | |]; cbn [bind] in H; try discriminate.
+  destruct (ex (fst pv)); [|inversion H].
+  destruct (assoc Z.eqb k (mz_entries m)) as [e|] eqn:Ha; [|discriminate].
+  unfold new_value in H. cbn [bind] in H. inversion H; subst. cbn [v_hasher v_val value_mt_entry].
+  split; [reflexivity|]. split; [reflexivity|]. exists k, e. auto.
+Qed.
+
+(* the path enters Proof only through its key: two paths with the same key — e.g. the same
+   parts under hashers that hash alike but report different primes — get the same answer *)
+Theorem proof_path_hasher_independent T Hd Hd' m p p' :
+  path_mt_entry Hd p = path_mt_entry Hd' p' ->
+  mz_proof T Hd m p = mz_proof T Hd' m p'.
+Proof. intros H. unfold mz_proof. rewrite H. reflexivity. Qed.
+
+(* seeded variant C10-j: Proof hashes the Value with the hasher of the caller's path *)
+Definition mz_proof_variant_j (T : tparams) (Hd : hasher) (m : mz) (p : path)
+  : res (proof * option value) :=
+  k <- path_mt_entry Hd p ;;
+  pv <- t_gen T (mz_tree m) k ;;
+  let pr := fst pv in
+  if ex pr then
+    match assoc Z.eqb k (mz_entries m) with
+    | None => Err "assert-no-entry"%string
+    | Some e =>
+        v <- new_value (Some (hasher_or Hd (p_hasher p))) (re_val e) ;;
+        Ok (pr, Some v)
+    end
+  else Ok (pr, None).
+
+Definition hashA : hasher :=
+  {| h_prime := 101; h_hash := fun l => OV (fold_left Z.add l 7); h_bytes := fun s => OV (Z.of_nat (String.length s)) |}.
+Definition hashB : hasher :=                 (* hashes exactly like hashA, another Prime() *)
+  {| h_prime := 103; h_hash := h_hash hashA; h_bytes := h_bytes hashA |}.
+Definition toyT : tparams := mktp (fun k v => k + v + 1) (fun l r => l + r + 2) 40 1000.
+Definition toyM : mz :=
+  mkmz [(8, mkentry (mkpath [PStr "a"%string] (Some hashA)) (XInt64 (-5)) ""%string (Some hashA))]
+       (L 8 96) hashA.
+
+(* a member path carrying the OTHER hasher still addresses the leaf; the real Proof gives a
+   Value hashing to the leaf 96 = 101 - 5, the variant's Value hashes to 98 = 103 - 5 *)
+Theorem variant_j_refuted :
+  exists pr v vj,
+    mz_proof toyT hashA toyM (mkpath [PStr "a"%string] (Some hashB)) = Ok (pr, Some v) /\
+    mz_proof_variant_j toyT hashA toyM (mkpath [PStr "a"%string] (Some hashB)) = Ok (pr, Some vj) /\
+    value_mt_entry v = Ok 96 /\ value_mt_entry vj = Ok 98.
+Proof. eexists. eexists. eexists. vm_compute. repeat split. Qed.
